@@ -44,4 +44,39 @@ CHECKS = {
     "C04": vsim("TestVerif_C04", ["log-matching", "leader-append-only"],
         "cases = generated schedules (profiles repl/elect); non-trivial: some node truncated >=1 entry, or >=2 leaders with >=3 entries committed; distinct by trace hash",
         400, 4000),
+    "C05v": vsim("TestVerif_C05v", ["one-vote", "vote-durable", "term-monotonic"], "vsim part of C05 (dev only)", 400, 4000),
+    "C07": vsim("TestVerif_C07", ["client-semantics", "exactly-once"],
+        "cases = generated client histories (UpdateFSM/ReadFSM/DirtyReadFSM/BarrierFSM to arbitrary nodes, bursts, FIFO per node) under leader changes, partitions, transfers, membership changes, restarts; non-trivial: >=1 task failed definitively or ambiguously, >=2 leaders elected, >=3 successful updates; distinct by trace hash",
+        400, 4000),
+    "C08": vsim("TestVerif_C08", ["config-safety", "leader-unique", "leader-complete", "commit-stable"],
+        "cases = generated membership request sequences (add non-voter +-promote, promote, demote, remove, force-remove, several per request, stale configs) interleaved with elections, transfers, faults; non-trivial: >=2 configuration entries appended by leaders and >=2 leaders elected; distinct by trace hash",
+        400, 4000),
+    "C11": vsim("TestVerif_C11", ["nonvoter-authority"],
+        "cases = generated membership/transfer schedules; non-trivial: a non-voter/non-member had its election timer fire or was sent timeout-now, or a promotion was appended; distinct by trace hash",
+        400, 4000),
+    "C15": vsim("TestVerif_C15", ["no-crash", "serve", "shutdown", "tasks-complete", "log-read"],
+        "cases = generated chaos schedules (client + admin tasks, snapshots, compaction, transfers, membership changes, partitions, crash/stop/restart, many 1 KiB segments) ending with heal, restart, 60 s of virtual time and shutdown of every node; non-trivial: >=3 of {snapshot, compaction, install, transfer, membership change, partition, restart}; distinct by trace hash",
+        300, 3000),
+    "C16": vsim("TestVerif_C16", ["transfer", "leader-unique"],
+        "cases = generated transfer schedules (target given/any/invalid, gated delivery of timeout-now, its reply and the vote traffic, concurrent updates and membership actions); non-trivial: a timeout-now request was written and the transfer task completed; distinct by trace hash",
+        400, 4000),
+    "C19": vsim("TestVerif_C19", ["info-order", "info-monotonic", "info-config"],
+        "cases = generated per-node request sequences with a GetInfo task handed to every idle node after every step; non-trivial: a node answering >=2 reports processed a snapshot installation, truncation or configuration revert; distinct by trace hash",
+        400, 4000),
+    "C18": {
+        "pkg": "raft", "test": "TestVerif_C18", "deciding": ["codec"], "level": "exploration",
+        "rule": "cases = rapid-generated values of every wire/disk type (entry, 5 requests, 5 responses with every result incl. unexpectedErr +-OpError, Node, Config 0..6 nodes, snapshotMeta, Replication, Info, task responses of every error kind/result type) with integers from {0,1,2^31+-1,2^32+-1,2^63-1,2^63,2^64-1,random} and byte strings 0..70 KiB, followed by arbitrary trailing bytes; plus append-request streams decoded through bufio in drawn chunk sizes; plus SetIdentity/setVotedFor->reopen for 64-bit values. Oracle: decoded value equals generated value (nil==empty map, times by Equal, errors by message/kind as the property states), decoder consumed exactly the encoding, every proper prefix (all for encodings <=256 bytes, 40 drawn + 64 at each end otherwise) yields an error and no panic. non-trivial: value has a field >= 2^63, an empty or > 4 KiB byte string, an error payload, or >= 3 nodes; distinct by hash of the encoding",
+        "assumptions": ["hostile length prefixes are not generated: the property speaks of truncations of valid encodings (readBytes allocates what a length prefix says, by design)",
+                        "semantic equality as stated in the property: nil and empty maps equal, Replication.Err compared by message, InProgressError recognised by kind"],
+        "quick": {"checks": 2500, "timeout": 300, "shrinktime": "10s", "gomaxprocs": 1},
+        "thorough": {"checks": 40000, "timeout": 2400, "shrinktime": "30s", "gomaxprocs": 1},
+    },
+    "C05": {
+        "pkg": "raft", "test": "TestVerif_C05", "deciding": ["votefn"], "level": "fault_enumeration",
+        "rule": "cases = rapid-generated sequences (1..25 ops) on a real Raft value without Serve: vote requests (term in {cur-1,cur,cur+1,cur+k,>=2^63}, candidate in {known leader, previous vote, others, ids>=2^63}, log position around the voter's, transfer flag), hearing from a leader, term bumps, log growth, self-vote (what startElection persists), restarts. EVERY vote request is executed three times: normally, and in two sibling branches on a copy of the directory - rename refused (crash before persist) and panic injected right after the rename (crash after persist, before reply) - each followed by a restart from that image. Oracle = reference model of the term file: per term at most one non-zero vote ever durable, a durable vote never forgotten, disk term never decreases, reply 'success' for (T,C) => disk reads exactly (T,C) at that instant, reply term / term after restart never below any reported term, memory equals disk after every call, refused rename leaves disk unchanged. non-trivial: sequence holds >=2 requests for one term from different candidates, or a restart; distinct by hash of the op/result trace",
+        "assumptions": ["voter states are produced with the package's own setters (setTerm, setVotedFor, appendEntry) plus direct assignment of the volatile leader/state fields, i.e. states a running node reaches",
+                        "crash = process kill at the two points of the persist sequence (before rename via the package's grantingVote test seam, after rename via the verif hook)"],
+        "quick": {"checks": 700, "timeout": 300, "shrinktime": "10s", "gomaxprocs": 1},
+        "thorough": {"checks": 15000, "timeout": 2400, "shrinktime": "30s", "gomaxprocs": 1},
+    },
 }
